@@ -133,7 +133,110 @@ func isMultiplierAtom(s *sx) bool {
 	return strings.HasPrefix(a, "p_") || strings.HasPrefix(a, "let_") || strings.HasPrefix(a, "fv") || strings.HasPrefix(a, "lv_")
 }
 
+func atomRank(a string) int {
+	switch {
+	case strings.HasPrefix(a, "p_"):
+		return 0
+	case strings.HasPrefix(a, "let_"):
+		return 1
+	case strings.HasPrefix(a, "fv"), strings.HasPrefix(a, "lv_"):
+		return 2
+	}
+	return 3
+}
+
+func isLinearDef(t *sx) bool {
+	if t.isAtom() || len(t.list) < 2 {
+		return false
+	}
+	switch t.list[0].atom {
+	case "+", "-":
+		return true
+	case "*":
+		return len(t.list) == 3 && (isNumeral(t.list[1]) || isNumeral(t.list[2]))
+	}
+	return false
+}
+
+// buildCanon collects unconditional definitions (= atom term) and merges atoms with identical definitions.
+func (r *mulRewriter) buildCanon(forms []*sx, declared map[string]bool) {
+	parent := map[string]string{}
+	var find func(string) string
+	find = func(a string) string {
+		if p, ok := parent[a]; ok && p != a {
+			root := find(p)
+			parent[a] = root
+			return root
+		}
+		return a
+	}
+	union := func(a, b string) {
+		ra, rb := find(a), find(b)
+		if ra == rb {
+			return
+		}
+		// keep the better-ranked / shorter name as root
+		if atomRank(rb) < atomRank(ra) || (atomRank(rb) == atomRank(ra) && (len(rb) < len(ra) || (len(rb) == len(ra) && rb < ra))) {
+			ra, rb = rb, ra
+		}
+		parent[rb] = ra
+	}
+	byDef := map[string]string{}
+	for _, f := range forms {
+		if len(f.list) != 2 || f.list[0].atom != "assert" {
+			continue
+		}
+		eq := f.list[1]
+		if len(eq.list) != 3 || eq.list[0].atom != "=" || !eq.list[1].isAtom() || !declared[eq.list[1].atom] {
+			continue
+		}
+		x, t := eq.list[1].atom, eq.list[2]
+		if t.isAtom() {
+			if declared[t.atom] {
+				union(x, t.atom)
+			}
+			continue
+		}
+		if _, dup := r.defs[x]; !dup {
+			r.defs[x] = t
+		}
+		k := t.String()
+		if y, ok := byDef[k]; ok {
+			union(x, y)
+		} else {
+			byDef[k] = x
+		}
+	}
+	for a := range parent {
+		r.canon[a] = find(a)
+	}
+	// definitions follow their class representative
+	for a, d := range r.defs {
+		if rep := find(a); rep != a {
+			if _, ok := r.defs[rep]; !ok {
+				r.defs[rep] = d
+			}
+		}
+	}
+}
+
+func (r *mulRewriter) subst(s *sx) *sx {
+	if s.isAtom() {
+		if c, ok := r.canon[s.atom]; ok && c != s.atom && r.bound[s.atom] == 0 {
+			return &sx{atom: c}
+		}
+		return s
+	}
+	out := &sx{list: make([]*sx, len(s.list))}
+	for i, c := range s.list {
+		out.list[i] = r.subst(c)
+	}
+	return out
+}
+
 type mulRewriter struct {
+	canon  map[string]string // atom -> representative atom (unconditional equalities)
+	defs   map[string]*sx    // atom -> unconditional defining term
 	mults  map[string]bool
 	bound  map[string]int // bound variable names in scope
 	ground map[string]map[string]bool // multiplier -> set of ground argument strings of mulby
@@ -172,34 +275,43 @@ func (r *mulRewriter) noteMul(y string, arg *sx) {
 
 // mulBy builds mulby_Y(x), distributing over syntactic sums/differences/negation and numeral factors.
 func (r *mulRewriter) mulBy(y string, x *sx) *sx {
+	return r.mulByDepth(y, x, 0)
+}
+
+func (r *mulRewriter) mulByDepth(y string, x *sx, depth int) *sx {
 	r.mults[y] = true
 	if isNumeral(x) {
 		return app("*", x, &sx{atom: y})
+	}
+	if x.isAtom() && depth < 4 && r.bound[x.atom] == 0 {
+		if d, ok := r.defs[x.atom]; ok && isLinearDef(d) {
+			return r.mulByDepth(y, r.subst(d), depth+1)
+		}
 	}
 	if !x.isAtom() && len(x.list) >= 2 {
 		switch x.list[0].atom {
 		case "+":
 			args := []*sx{}
 			for _, a := range x.list[1:] {
-				args = append(args, r.mulBy(y, a))
+				args = append(args, r.mulByDepth(y, a, depth))
 			}
 			return app("+", args...)
 		case "-":
 			if len(x.list) == 2 {
-				return app("-", r.mulBy(y, x.list[1]))
+				return app("-", r.mulByDepth(y, x.list[1], depth))
 			}
 			args := []*sx{}
 			for _, a := range x.list[1:] {
-				args = append(args, r.mulBy(y, a))
+				args = append(args, r.mulByDepth(y, a, depth))
 			}
 			return app("-", args...)
 		case "*":
 			// (c * t) * Y with numeral c
 			if len(x.list) == 3 && isNumeral(x.list[1]) {
-				return app("*", x.list[1], r.mulBy(y, x.list[2]))
+				return app("*", x.list[1], r.mulByDepth(y, x.list[2], depth))
 			}
 			if len(x.list) == 3 && isNumeral(x.list[2]) {
-				return app("*", x.list[2], r.mulBy(y, x.list[1]))
+				return app("*", x.list[2], r.mulByDepth(y, x.list[1], depth))
 			}
 		}
 	}
@@ -307,13 +419,20 @@ func (r *mulRewriter) rewrite(s *sx) *sx {
 // mulUFVariant rewrites a complete VC text. Returns "" when there is nothing to abstract.
 func mulUFVariant(vc string) string {
 	forms := parseSexprs(vc)
-	r := &mulRewriter{mults: map[string]bool{}, bound: map[string]int{}, ground: map[string]map[string]bool{}}
+	r := &mulRewriter{canon: map[string]string{}, defs: map[string]*sx{}, mults: map[string]bool{}, bound: map[string]int{}, ground: map[string]map[string]bool{}}
+	declared := map[string]bool{}
+	for _, f := range forms {
+		if len(f.list) == 3 && f.list[0].atom == "declare-const" {
+			declared[f.list[1].atom] = true
+		}
+	}
+	r.buildCanon(forms, declared)
 	var head, body []string
 	for _, f := range forms {
 		if len(f.list) > 0 {
 			switch f.list[0].atom {
 			case "assert":
-				body = append(body, r.rewrite(f).String())
+				body = append(body, r.rewrite(r.subst(f)).String())
 				continue
 			case "check-sat", "get-model":
 				continue
